@@ -9,6 +9,17 @@
 (* taken for the new ephemeral key (matrixsslKeys.c 1111-1163).  Modelled:  *)
 (* the session ticket key list under rotation, resumptions that need a key  *)
 (* of that list, and ephemeral key generation.                              *)
+(* With a session ticket callback registered (matrixSslSetSessionTicket-     *)
+(* Callback) a resumption is NOT one critical section: getTicketKeys finds   *)
+(* the key, pins it (inUse), RELEASES g_sessTicketLock around the callback   *)
+(* and takes it again before the key is used (matrixssl.c, getTicketKeys /   *)
+(* matrixUnlockSessionTicket).  That is modelled step by step ("resumecb"):  *)
+(* Lookup+pin, Callback (no lock held), Use+unpin.  A deletion refuses a     *)
+(* pinned key.  PinIsCounter says whether the pin counts its holders (TRUE,  *)
+(* the code after fix F71) or is a flag that the first holder to finish      *)
+(* clears (FALSE, the code as found: with two resumptions inside their       *)
+(* callbacks the key could be deleted under the second - NoUseOfDeletedKey   *)
+(* fails, see MxConc_MC_flagpin.cfg).                                        *)
 (*                                                                         *)
 (* The implementation is judged from the outside, by the stamps of a global *)
 (* counter taken at Begin and End.  Serializable says what those stamps     *)
@@ -20,9 +31,9 @@
 (* executions, raises no false alarm), together with mutual exclusion and   *)
 (* freedom from deadlock.                                                   *)
 (***************************************************************************)
-EXTENDS Naturals, Sequences, FiniteSets, TLC
+EXTENDS Integers, Sequences, FiniteSets, TLC
 
-CONSTANTS Threads, Keys, MaxOps, KeygenOrder
+CONSTANTS Threads, Keys, MaxOps, KeygenOrder, PinIsCounter, WithCallback
 
 VARIABLES keylist,   \* set of ticket keys currently loaded
           owner,     \* [lock -> thread holding it or "none"]
@@ -30,8 +41,9 @@ VARIABLES keylist,   \* set of ticket keys currently loaded
           cur,       \* [thread -> current operation record]
           clock,     \* global stamp counter
           hist,      \* completed operations with their stamps and outcomes
-          nops, init0
-vars == <<keylist, owner, pc, cur, clock, hist, nops, init0>>
+          nops, init0,
+          pin        \* [key -> Nat]: psSessionTicketKeys_t.inUse
+vars == <<keylist, owner, pc, cur, clock, hist, nops, init0, pin>>
 Locks == {"tickets", "cache", "prng"}
 \* the mutexes an operation takes, outermost first
 LockSeq(op) == CASE op.kind = "keygen" -> KeygenOrder [] op.kind = "rand" -> <<"prng">> [] OTHER -> <<"tickets">>
@@ -40,12 +52,13 @@ NoOp == [kind |-> "none"]
 Init == /\ keylist \in SUBSET Keys /\ owner = [l \in Locks |-> "none"]
         /\ pc = [t \in Threads |-> "idle"] /\ cur = [t \in Threads |-> NoOp]
         /\ clock = 0 /\ hist = {} /\ nops = 0 /\ init0 = keylist
+        /\ pin = [k \in Keys |-> 0]
 
 Begin(t, op) ==
     /\ pc[t] = "idle" /\ nops < MaxOps
-    /\ cur' = [cur EXCEPT ![t] = op @@ [t0 |-> clock, out |-> "?", nheld |-> 0]]
+    /\ cur' = [cur EXCEPT ![t] = op @@ [t0 |-> clock, out |-> "?", nheld |-> 0, phase |-> 1, found |-> FALSE, c0 |-> -1, c1 |-> -1]]
     /\ pc' = [pc EXCEPT ![t] = "begun"] /\ clock' = clock + 1 /\ nops' = nops + 1
-    /\ UNCHANGED <<keylist, owner, hist, init0>>
+    /\ UNCHANGED <<keylist, owner, hist, init0, pin>>
 
 Acquire(t) ==
     /\ pc[t] = "begun"
@@ -55,29 +68,57 @@ Acquire(t) ==
        /\ owner' = [owner EXCEPT ![lk] = t]
        /\ cur' = [cur EXCEPT ![t].nheld = @ + 1]
        /\ pc' = [pc EXCEPT ![t] = IF cur[t].nheld + 1 = Len(sq) THEN "locked" ELSE "begun"]
-    /\ UNCHANGED <<keylist, clock, hist, nops, init0>>
+    /\ UNCHANGED <<keylist, clock, hist, nops, init0, pin>>
+
+Pin(k) == [pin EXCEPT ![k] = IF PinIsCounter THEN @ + 1 ELSE 1]
+Unpin(k) == [pin EXCEPT ![k] = IF PinIsCounter THEN @ - 1 ELSE 0]
 
 \* the critical section: the linearization point of the operation
 Critical(t) ==
     /\ pc[t] = "locked"
     /\ LET op == cur[t] IN
-       CASE op.kind \in {"keygen", "rand"} -> UNCHANGED keylist /\ cur' = [cur EXCEPT ![t].out = "ok"]
-         [] op.kind = "add" -> keylist' = keylist \cup {op.k} /\ cur' = [cur EXCEPT ![t].out = "ok"]
-         [] op.kind = "del" -> keylist' = keylist \ {op.k} /\ cur' = [cur EXCEPT ![t].out = "ok"]
+       CASE op.kind \in {"keygen", "rand"} -> UNCHANGED <<keylist, pin>> /\ cur' = [cur EXCEPT ![t].out = "ok"] /\ pc' = [pc EXCEPT ![t] = "done-cs"]
+         [] op.kind = "add" -> keylist' = keylist \cup {op.k} /\ cur' = [cur EXCEPT ![t].out = "ok"] /\ UNCHANGED pin /\ pc' = [pc EXCEPT ![t] = "done-cs"]
+         [] op.kind = "del" -> \* matrixSslDeleteSessionTicketKey: only a key nobody has pinned
+                               /\ IF pin[op.k] = 0 THEN keylist' = keylist \ {op.k} /\ cur' = [cur EXCEPT ![t].out = "ok"]
+                                                    ELSE UNCHANGED keylist /\ cur' = [cur EXCEPT ![t].out = "refused"]
+                               /\ UNCHANGED pin /\ pc' = [pc EXCEPT ![t] = "done-cs"]
          [] op.kind = "resume" -> /\ cur' = [cur EXCEPT ![t].out = IF op.k \in keylist THEN "resumed" ELSE "full"]
-                                  /\ UNCHANGED keylist
-    /\ owner' = [lk \in Locks |-> IF owner[lk] = t THEN "none" ELSE owner[lk]] /\ pc' = [pc EXCEPT ![t] = "done-cs"]
+                                  /\ UNCHANGED <<keylist, pin>> /\ pc' = [pc EXCEPT ![t] = "done-cs"]
+         [] op.kind = "resumecb" /\ op.phase = 1 ->       \* getTicketKeys: look the key up, pin it, leave the lock for the callback
+                                  /\ cur' = [cur EXCEPT ![t].found = (op.k \in keylist), ![t].nheld = 0]
+                                  /\ pin' = IF op.k \in keylist THEN Pin(op.k) ELSE pin
+                                  /\ UNCHANGED keylist /\ pc' = [pc EXCEPT ![t] = "cb"]
+         [] op.kind = "resumecb" /\ op.phase = 2 ->       \* matrixUnlockSessionTicket: MAC and decrypt with the key, then unpin
+                                  /\ cur' = [cur EXCEPT ![t].out = "resumed"]
+                                  /\ pin' = Unpin(op.k) /\ UNCHANGED keylist /\ pc' = [pc EXCEPT ![t] = "done-cs"]
+    /\ owner' = [lk \in Locks |-> IF owner[lk] = t THEN "none" ELSE owner[lk]]
     /\ UNCHANGED <<clock, hist, nops, init0>>
+
+\* the application's ticket callback, no library lock held: told whether the key was found, it accepts a found key and
+\* (this application) does not supply missing ones; stamps c0 / c1 bracket the window
+CallbackEnter(t) ==
+    /\ pc[t] = "cb" /\ cur[t].c0 = -1
+    /\ cur' = [cur EXCEPT ![t].c0 = clock] /\ clock' = clock + 1
+    /\ UNCHANGED <<keylist, owner, pc, hist, nops, init0, pin>>
+CallbackReturn(t) ==
+    /\ pc[t] = "cb" /\ cur[t].c0 # -1
+    /\ clock' = clock + 1
+    /\ IF cur[t].found
+         THEN cur' = [cur EXCEPT ![t].c1 = clock, ![t].phase = 2] /\ pc' = [pc EXCEPT ![t] = "begun"]
+         ELSE cur' = [cur EXCEPT ![t].c1 = clock, ![t].out = "full"] /\ pc' = [pc EXCEPT ![t] = "done-cs"]
+    /\ UNCHANGED <<keylist, owner, hist, nops, init0, pin>>
 
 End(t) ==
     /\ pc[t] = "done-cs"
     /\ hist' = hist \cup {cur[t] @@ [t1 |-> clock, th |-> t]}
     /\ clock' = clock + 1 /\ pc' = [pc EXCEPT ![t] = "idle"] /\ cur' = [cur EXCEPT ![t] = NoOp]
-    /\ UNCHANGED <<keylist, owner, nops, init0>>
+    /\ UNCHANGED <<keylist, owner, nops, init0, pin>>
 
-Ops == [kind : {"add", "del", "resume"}, k : Keys] \cup {[kind |-> "keygen", k |-> CHOOSE k \in Keys : TRUE], [kind |-> "rand", k |-> CHOOSE k \in Keys : TRUE]}
-Next == \E t \in Threads : (\E op \in Ops : Begin(t, op)) \/ Acquire(t) \/ Critical(t) \/ End(t)
-Spec == Init /\ [][Next]_vars /\ \A t \in Threads : WF_vars(Acquire(t) \/ Critical(t) \/ End(t))
+Ops == [kind : {"add", "del", IF WithCallback THEN "resumecb" ELSE "resume"}, k : Keys]
+       \cup (IF WithCallback THEN {} ELSE {[kind |-> "keygen", k |-> CHOOSE k \in Keys : TRUE], [kind |-> "rand", k |-> CHOOSE k \in Keys : TRUE]})
+Next == \E t \in Threads : (\E op \in Ops : Begin(t, op)) \/ Acquire(t) \/ Critical(t) \/ CallbackEnter(t) \/ CallbackReturn(t) \/ End(t)
+Spec == Init /\ [][Next]_vars /\ \A t \in Threads : WF_vars(Acquire(t) \/ Critical(t) \/ CallbackEnter(t) \/ CallbackReturn(t) \/ End(t))
 
 MutualExclusion == \A t1, t2 \in Threads : (t1 # t2 /\ pc[t1] = "locked" /\ pc[t2] = "locked") => LockSeq(cur[t1])[Len(LockSeq(cur[t1]))] # LockSeq(cur[t2])[Len(LockSeq(cur[t2]))]
 \* every begun operation ends (no deadlock, no starvation under weak fairness)
@@ -98,6 +139,19 @@ SurelyAbsent(k, a, b) ==
 Serializable == \A r \in hist : r.kind = "resume" =>
     /\ SurelyPresent(r.k, r.t0, r.t1) => r.out = "resumed"
     /\ SurelyAbsent(r.k, r.t0, r.t1) => r.out = "full"
+(* ---- the callback window ---- *)
+\* a key somebody found and has not finished using is still in the list (else: use of freed key material)
+NoUseOfDeletedKey == \A t \in Threads : (cur[t].kind = "resumecb" /\ cur[t].found /\ pc[t] # "done-cs") => cur[t].k \in keylist
+\* the pin counts exactly the resumptions between Lookup and Use
+PinCountsHolders == PinIsCounter => \A k \in Keys : pin[k] = Cardinality({t \in Threads : cur[t].kind = "resumecb" /\ cur[t].k = k /\ cur[t].found /\ pc[t] # "done-cs"})
+\* what the stamps of an execution show (used by MxConc_Trace): a deletion that lies entirely inside the callback window of a
+\* resumption that had found the key was refused; a resumption whose callback was told "found" ends resumed
+CbOps == {x \in hist : x.kind = "resumecb"}
+DelRespectsWindow == \A d \in hist : (d.kind = "del" /\ d.out = "ok") =>
+                         ~\E r \in CbOps \cup {cur[t] : t \in {x \in Threads : cur[x].kind = "resumecb"}} :
+                              r.k = d.k /\ r.found /\ r.c0 # -1 /\ r.c0 < d.t0 /\ (r.c1 = -1 \/ d.t1 < r.c1)
+FoundMeansResumed == \A r \in CbOps : r.found => r.out = "resumed"
 \* vacuity guards (must be violated)
+NeverRefused == ~\E d \in hist : d.kind = "del" /\ d.out = "refused"
 NeverBothOutcomes == ~(\E r1, r2 \in hist : r1.kind = "resume" /\ r2.kind = "resume" /\ r1.out = "resumed" /\ r2.out = "full")
 =============================================================================
